@@ -101,6 +101,9 @@ def harness_for(cfg):
                     except KeyError:
                         E.prove(False, "find_resource does not find a resource that was added")
                         continue
+                    except (TypeError, AssertionError):
+                        E.prove(False, "find_resource() fails with an internal error on a legal tree")
+                        continue
                     E.prove(b_and(f.start == s, f.end == e, f.width == w), "find_resource during construction")
                 try:
                     mm.find_resource(stranger)
@@ -109,7 +112,10 @@ def harness_for(cfg):
                     pass
                 # an abandoned traversal (linear search with early exit) is a query too
                 it = mm.all_resources()
-                next(it, None)
+                try:
+                    next(it, None)
+                except (TypeError, AssertionError):
+                    E.prove(False, "all_resources() fails with an internal error on a legal tree")
                 del it
             poke()
             for it in spec["items"]:
@@ -151,7 +157,11 @@ def harness_for(cfg):
                 other.add_window(w_, sparse=(True if w_.data_width != shape["dw"] and r_ == 1 else (False if r_ > 1 else None)))
             except ValueError:
                 pass
-        infos = list(root.all_resources())
+        try:
+            infos = list(root.all_resources())
+        except (TypeError, AssertionError, KeyError) as e:
+            E.prove(False, "all_resources() fails with an internal error on a legal tree")
+            return
         E.prove(len(infos) == len(oracle), "every added resource is reported exactly once")
         by_id = {id(r): (s, e, w, p) for r, s, e, w, p in oracle}
         seen = set()
